@@ -123,7 +123,7 @@ func runC02() {
 					extras = append(extras, 1+r.Intn(2))
 				}
 				for _, extra := range extras {
-					c02Scenario(s, i, after, extra, r.Fork())
+					timed(fmt.Sprintf("c02-extra-%d", extra), func() { c02Scenario(s, i, after, extra, r.Fork()) })
 					if extra != 0 {
 						rec.Count(fmt.Sprintf("c02:extra-%d", extra))
 					}
@@ -136,11 +136,11 @@ func runC02() {
 			nHist = 1
 		}
 		if !run.Thorough() || n%3 == 0 {
-			slowOwnerScenario(r.Fork())
+			timed("slow-owner", func() { slowOwnerScenario(r.Fork()) })
 			rec.Count("c02:family:slow-owner")
 		}
 		for i := 0; i < nHist; i++ {
-			historyScenario(r.Fork())
+			timed("history", func() { historyScenario(r.Fork()) })
 			rec.Count("c02:family:history")
 		}
 	}
